@@ -8,9 +8,12 @@ import (
 func getVariableOperator(_ *dataTreeNavigator, context Context, expressionNode *ExpressionNode) (Context, error) {
 	variableName := expressionNode.Operation.StringValue
 	log.Debug("getVariableOperator %v", variableName)
-	result := context.GetVariable(variableName)
-	if result == nil {
-		result = list.New()
+	// hand out a fresh list: union compares the lists of its two operands by
+	// identity to detect "both sides returned the context", and `$x, $x` must
+	// not look like that
+	result := list.New()
+	if value := context.GetVariable(variableName); value != nil {
+		result.PushBackList(value)
 	}
 	return context.ChildContext(result), nil
 }
